@@ -63,6 +63,20 @@ def oracle_convert(db, qtype, u, v, x):
     return term(iv.frombase(iu.tobase(x)))
 
 
+def coef_tobase(db, qtype, u, x):
+    """Physical amount in base units computed from the PUBLISHED POSC coefficients of the row, (A + B x) / (C + D x), not by calling the closure
+    (None when the row publishes no coefficients or D != 0)."""
+    info = db.GetInfo(qtype, u, fix_unknown=True)
+    f = info.tobase
+    if not all(hasattr(f, n) for n in ("__a__", "__b__", "__c__", "__d__")) or f.__d__ != 0:
+        return None
+    from fractions import Fraction
+
+    xt = x if isinstance(x, z3.ExprRef) else term(x)
+    a, b, c = (rv(Fraction(float(v))) for v in (f.__a__, f.__b__, f.__c__))
+    return (a + b * xt) / c
+
+
 def slope_of(info_fn):
     """Exact slope of an (affine) conversion closure: f(1) - f(0) evaluated in rationals."""
     f1 = info_fn(SymReal(z3.RealVal(1)))
